@@ -429,6 +429,8 @@ def apply_overlay(raw, ops, guessed=None):
     R = Tree(raw)
     ins = []        # (offset, order, text, op_index)
     dels = []       # (start, end) ranges of raw replaced by subst ops
+    placed = {}     # item path -> [(op index, token position)] of the annotations placed so far
+    deferred = []   # ambiguous annotations: decided afterwards from the order of their neighbours
     for k, op in enumerate(ops):
         node = R.find(op['path'])
         if node is None:
@@ -471,10 +473,16 @@ def apply_overlay(raw, ops, guessed=None):
             # one side of the anchor still matches right here while the other side no longer does at all and matches
             # somewhere else instead (branches swapped, statements moved): the placement is a guess
             guessed.append('/'.join(op['path']))
+        if best >= full * 0.45 and second >= best - 1 and op['op'] != 'subst':
+            # two places of the item look alike (repeated code): annotations keep their relative order, so the
+            # neighbours that are placed without doubt bound the range; decided after the loop
+            deferred.append((k, op, node, rt, full))
+            continue
         if best < full * 0.45 or second >= best - 1:
             raise AnchorError('lost anchor in %s (score %d/%d, runner-up %d): context %r | %r'
                               % ('/'.join(op['path']), best, full, second,
                                  ' '.join(op['before'][-6:]), ' '.join(op['after'][:6])))
+        placed.setdefault(tuple(op['path']), []).append((k, b))
         if op['op'] == 'subst':
             old = op['old']
             if rt[b:b + len(old)] != old:
@@ -487,6 +495,24 @@ def apply_overlay(raw, ops, guessed=None):
         else:
             off = R.tok_start(node.lo + b) if node.lo + b < len(R.toks) else len(raw)
             ins.append((off, k, op['text'].strip('\n') + '\n', k))
+    for k, op, node, rt, full in deferred:
+        nb = placed.get(tuple(op['path']), [])
+        lo = max([b for kk, b in nb if kk < k] or [0])
+        hi = min([b for kk, b in nb if kk > k] or [len(rt)])
+        best, second, bi = -1, -1, None
+        for b in range(lo, hi + 1):
+            sc = _score(rt, b, op['before'], op['after'])
+            if sc > best:
+                second, best, bi = best, sc, b
+            elif sc > second:
+                second = sc
+        if bi is None or best < full * 0.45 or second >= best - 1 or (lo == 0 and hi == len(rt)):
+            raise AnchorError('lost anchor in %s (score %d/%d, runner-up %d, between its neighbours): context %r | %r'
+                              % ('/'.join(op['path']), best, full, second,
+                                 ' '.join(op['before'][-6:]), ' '.join(op['after'][:6])))
+        placed.setdefault(tuple(op['path']), []).append((k, bi))
+        off = R.tok_start(node.lo + bi) if node.lo + bi < len(R.toks) else len(raw)
+        ins.append((off, k, op['text'].strip('\n') + '\n', k))
     ins.sort(key=lambda x: (x[0], x[1]))
     out = []
     inserted = []
